@@ -364,7 +364,7 @@ def rule_counter_plumbing(eng, rep, A, rule="C02-3.counter-plumbing"):
     nfw, nxw, nf_args, nx_args = A.counter_closures()
     # C02-4: ports
     rule4 = "C02-4.log-numbering-ports"
-    inter = set(st[0] for st in (set(nfw.parent) & set(nxw.parent)))
+    inter = set(st[0] for st in (set((a_[0], a_[1]) for a_ in nfw.parent) & set((a_[0], a_[1]) for a_ in nxw.parent)))
     inter = set(n for n in inter if not (n[0] == "e" and isinstance(vfg.info[n][1], ast.Constant)))
     if inter:
         for n in sorted(inter, key=str)[:3]:
@@ -533,7 +533,22 @@ def rule_point_numbering(eng, rep, A, rule="C02-5.point-numbering"):
                 why = "no point number assigned" if bad[0] == 0 else "point counter incremented more than once (one number per sample)"
                 rep.bad(rule, site, "%s|nx-increments-%s|%s" % (fid, "0" if bad[0] == 0 else "many", _call_key(cfg, n)),
                         "%s: %s" % (nx, why), path=cfg.describe_path(fl.path_to(n, bad))[-20:])
-        # identical x for all samples: the x argument has no definition inside a loop that contains the call
+        # identical x for all samples: all evaluation calls of one invocation (they share the point number) get the same x expression ...
+        xtexts = {}
+        for ci in cis:
+            xa = ci.node.args[1] if len(ci.node.args) > 1 else arg_of(eng, ci.node, A.sink, A.sink.posparams[1])
+            xtexts.setdefault(ekey(xa), []).append(ci)
+        if len(xtexts) > 1:
+            major = max(xtexts, key=lambda k: len(xtexts[k]))
+            for txt, group in xtexts.items():
+                if txt == major and len(xtexts[major]) > 1:
+                    continue
+                for ci in group:
+                    rep.bad(rule, eng.where(fi, ci.node), "%s|samples-of-one-point-get-different-x|%s" % (fid, txt[:40]),
+                            "the evaluations of one point number in %s are made at `%s` here but at `%s` elsewhere: samples that share a point number receive different x" % (fi.qualname, txt[:60], [t for t in xtexts if t != txt][0][:60]))
+        elif len(cis) > 1:
+            rep.ok(rule, eng.where(fi), "all %d evaluation calls of one invocation are made at the same expression `%s`" % (len(cis), list(xtexts)[0][:60]))
+        # ... and the x argument has no definition inside a loop that contains the call
         for ci in cis:
             xarg = ci.node.args[1] if len(ci.node.args) > 1 else arg_of(eng, ci.node, A.sink, A.sink.posparams[1])
             cn = cfg.cfg_node(ci.node)
